@@ -308,6 +308,8 @@ class _SymMixin:
                 if kind == "dec":
                     import decimal
 
+                    if c.decide(ta == 0):
+                        raise decimal.InvalidOperation("symbolic 0/0")
                     raise decimal.DivisionByZero("symbolic division by zero")
                 raise ZeroDivisionError("symbolic division by zero")
             if kind == "int":
@@ -595,6 +597,13 @@ def _pow(b: Any, n: Any) -> Any:
     if isinstance(n, bool):
         n = int(n)
     if isinstance(n, int):
+        if kb == "dec" and n <= 0:
+            if c.decide(b.t == 0):
+                if n == 0:
+                    import decimal
+
+                    raise decimal.InvalidOperation("Decimal 0 ** 0")
+                raise NonFinite("Decimal 0 ** negative is Infinity")
         if n >= 0:
             return mk(kb, _ipow(b.t, n))
         if c.decide(b.t == 0):
@@ -640,6 +649,10 @@ def _pow(b: Any, n: Any) -> Any:
             raise ZeroDivisionError("0.0 cannot be raised to a negative power")
         c.axiom(z3.And(y > 0, _ipow(y, qd) * _ipow(tb, -p) == 1))
     return mk(out_kind, y)
+
+
+class NonFinite(Exception):
+    """Stands for Python *returning* an infinity or NaN (no exception in the real run)."""
 
 
 class ComplexResult(Exception):
@@ -990,3 +1003,103 @@ def selftest() -> int:
         raise HarnessError("selftest: division fork")
     cases += 1
     return cases
+
+
+# --------------------------------------------------------------------------------------
+# harness helper: one `build` function serves the symbolic run, the concrete self-check
+# and the replay
+
+
+class Case:
+    """`build(vals)` performs public-API calls with `vals[name]` as numbers (proxies in the
+    symbolic run, plain numbers in the self-check) and returns a dict of observables."""
+
+    def __init__(self, build: Callable[[Dict[str, Any]], Dict[str, Any]],
+                 kinds: Dict[str, str], assumptions: Callable[[Dict[str, z3.ArithRef]],
+                                                              Sequence[z3.BoolRef]] = None,
+                 max_paths: int = 256, timeout_ms: int = 10000) -> None:
+        self.build, self.kinds = build, kinds
+        self.vars = {n: var(k, n) for n, k in kinds.items()}
+        self.assumptions = list(assumptions(self.vars)) if assumptions else []
+        self.max_paths, self.timeout_ms = max_paths, timeout_ms
+        self.selfchecked = 0
+
+    def explore(self) -> Exploration:
+        def fn() -> Any:
+            vals = {n: mk(k, self.vars[n]) for n, k in self.kinds.items()}
+            return self.build(vals)
+
+        return explore(fn, assumptions=self.assumptions, max_paths=self.max_paths,
+                       query_timeout_ms=self.timeout_ms)
+
+    def concrete(self, model: Dict[str, Fraction]) -> Tuple[Any, Optional[BaseException]]:
+        vals = {n: to_python(k, model[n]) for n, k in self.kinds.items()}
+        try:
+            return self.build(vals), None
+        except HarnessError:
+            raise
+        except Exception as e:
+            return None, e
+
+    def selfcheck(self, path: Path, P: Prover, rel: float = 1e-9) -> bool:
+        """Translator validation + reachability witness for one path: a shaped model of the
+        path condition is evaluated in the z3 terms *and* fed as plain numbers to the same
+        library calls; the two must agree.  Returns False when no shaped model exists."""
+        vs = list(self.vars.values())
+        conds = [path.cond]
+        m = P.shaped_model(conds, vs)
+        if m is None:
+            return False
+        res, exc = self.concrete(m)
+        if isinstance(path.exc, NonFinite):
+            # the real run continues with an infinity / NaN; whatever happens next is
+            # outside what the proxies model
+            self.selfchecked += 1
+            return True
+        if (exc is None) != (path.exc is None):
+            # a fork that exists only in exact arithmetic (e.g. x == 0.3 exactly) can be
+            # unreachable in floats; anything else is a translator bug
+            raise HarnessError(
+                f"self-check: symbolic path ended {path.outcome}, concrete run with {m} "
+                f"ended {'ok' if exc is None else type(exc).__name__ + ': ' + str(exc)}")
+        if exc is not None:
+            if type(exc).__name__ != type(path.exc).__name__ and not (
+                    isinstance(path.exc, ComplexResult)):
+                raise HarnessError(f"self-check: exception {type(path.exc).__name__} vs "
+                                   f"concrete {type(exc).__name__} at {m}")
+            self.selfchecked += 1
+            return True
+        s = z3.Solver()
+        s.set("timeout", self.timeout_ms)
+        s.add(path.cond)
+        for n, v in self.vars.items():
+            s.add(v == q(m[n]))
+        if str(s.check()) != "sat":
+            return False
+        mod = s.model()
+        for k, want in res.items():
+            got = path.result.get(k)
+            if is_sym(got):
+                gv = model_value(mod, got.t)
+                wv = Fraction(want) if not isinstance(want, float) or want == want else None
+                if wv is None:
+                    continue
+                if abs(gv - wv) > rel * max(abs(gv), abs(wv), 1):
+                    raise HarnessError(f"self-check: observable {k}: term gives {float(gv)!r}, "
+                                       f"library gives {want!r} at {m}")
+                if kind_of(got) != kind_of(want):
+                    raise HarnessError(f"self-check: observable {k}: kind {kind_of(got)} vs "
+                                       f"{kind_of(want)} at {m}")
+            elif isinstance(got, SBool):
+                gb = z3.is_true(mod.eval(got.t, model_completion=True))
+                if gb != bool(want):
+                    raise HarnessError(f"self-check: truth value {k}: {gb} vs {want} at {m}")
+            elif isinstance(got, (int, float, Decimal)) and not isinstance(got, bool):
+                if isinstance(want, (int, float, Decimal)) and abs(float(got) - float(want)) > \
+                        rel * max(abs(float(got)), 1):
+                    raise HarnessError(f"self-check: {k}: {got!r} vs {want!r} at {m}")
+            else:
+                if got is not want and got != want:
+                    raise HarnessError(f"self-check: {k}: {got!r} vs {want!r} at {m}")
+        self.selfchecked += 1
+        return True
